@@ -2334,7 +2334,7 @@ namespace awkward {
     kernel::lib ptr_lib = kernel::lib::cpu;   // DERIVE
     std::shared_ptr<std::complex<float>> ptr = kernel::malloc<std::complex<float>>(
       ptr_lib, outlength*(int64_t)sizeof(std::complex<float>));
-    float initial = 0;
+    float initial = -std::numeric_limits<float>::infinity();
     if (has_initial_) {
       initial = (float)initial_f64_;
     }
@@ -2357,7 +2357,7 @@ namespace awkward {
     kernel::lib ptr_lib = kernel::lib::cpu;   // DERIVE
     std::shared_ptr<std::complex<double>> ptr = kernel::malloc<std::complex<double>>(
       ptr_lib, outlength*(int64_t)sizeof(std::complex<double>));
-    double initial = 0;
+    double initial = -std::numeric_limits<double>::infinity();
     if (has_initial_) {
       initial = (double)initial_f64_;
     }
